@@ -54,8 +54,11 @@ def gen_args(rng):
 
 
 def gen_script(rng):
-    s = GS.gen_mixed(rng, with_comments=0.4, with_unsupported=0.2)
-    text = s["text"]
+    if rng.random() < 0.3:
+        from vf.gen import sources
+        text = sources.any_script(rng)[1]
+    else:
+        text = GS.gen_mixed(rng, with_comments=0.4, with_unsupported=0.2)["text"]
     r = rng.random()
     if r < 0.2:
         text = text.rstrip("\n").rstrip(";") + "\n"          # unterminated last statement
